@@ -775,6 +775,12 @@ func NewPool[C any](r *Recorder, name string, judge func(C) []Violation, max int
 	return &Pool[C]{k: NewKind(r, name, ParallelJudge(judge)), max: max}
 }
 
+// DeclareEach makes the concurrent kind declare every batch before judging it (see Kind.DeclareEach).
+func (p *Pool[C]) DeclareEach() *Pool[C] {
+	p.k.DeclareEach()
+	return p
+}
+
 // Offer keeps the case for the concurrent phase if it is among the heaviest seen.
 func (p *Pool[C]) Offer(c C) {
 	if p.max == 0 || p.offers > 4000 {
